@@ -19,6 +19,11 @@ pub struct E1Spec {
 }
 
 pub fn run_e1(ctx: &Ctx, spec: E1Spec) -> i32 {
+    run_e1_with(ctx, spec, |_, _| {})
+}
+
+/// Like `run_e1`, with a hook that may add coverage keys (it gets the coverage map and the merged counters).
+pub fn run_e1_with(ctx: &Ctx, spec: E1Spec, post: impl FnOnce(&mut Map<String, Value>, &BTreeMap<String, u64>)) -> i32 {
     let mut violations = vec![];
     let mut class_counts: BTreeMap<(String, String), u64> = BTreeMap::new();
     let mut evaluations = 0;
@@ -69,7 +74,7 @@ pub fn run_e1(ctx: &Ctx, spec: E1Spec) -> i32 {
     cov.insert("alphabets".into(), spec.alphabets);
     cov.insert("bounds".into(), spec.bounds);
     cov.insert("caps_hit".into(), json!(spec.caps_hit));
-    cov.insert("counters".into(), json!(counters));
+    cov.insert("counters".into(), json!(counters.clone()));
     if spec.level == "model_checking" {
         let tr = counters.get("transitions").cloned().unwrap_or(evaluations);
         cov.insert("states".into(), json!(distinct.max(1)));
@@ -78,6 +83,7 @@ pub fn run_e1(ctx: &Ctx, spec: E1Spec) -> i32 {
     }
     cov.insert("hangs".into(), json!(hangs));
     cov.insert("crashes".into(), json!(crashes));
+    post(&mut cov, &counters);
     finish(ctx, Outcome { level: spec.level, coverage: cov, violations, violation_counts: class_counts, assumptions: spec.assumptions })
 }
 
